@@ -563,6 +563,8 @@ def _same_slot_search(a, b):
         mb, _ = search_model(b.facts, b, ab)
         if ma is None or mb is None:
             return False
+        if ma["form"] == mb["form"]:
+            return False    # written the same way: the text comparison stands
         if any(ma[k] != mb[k] for k in ("first", "dir", "stop", "guard", "result")):
             return False
     return True
